@@ -493,6 +493,9 @@ func (fx *Fx) callFuncValue(st *State, call *ast.CallExpr, preArgs []Val) []Val 
 	st.assume(fmt.Sprintf("(not (= %s 0))", fv.T))
 	c.declareFun("fn_code", []string{"Int"}, "Int")
 	st.logEvent(evTerm("Call", "(fn_code "+fv.T+")", a0, a1, ""))
+	// ghost: number of calls made through each function value (by code id)
+	nc := st.heap("NC", "(Array Int Int)")
+	st.setHeap("NC", "(Array Int Int)", fmt.Sprintf("(store %s (fn_code %s) (+ (select %s (fn_code %s)) 1))", nc, fv.T, nc, fv.T))
 	// effects: those of any literal with the same signature; events: opaque
 	ms := newModSet()
 	fx.w.callMods(fx.pkg, c, call, ms, nil)
@@ -535,6 +538,7 @@ func (fx *Fx) havocMods(st *State, ms *modSet) {
 	}
 	if ms.emits || ms.all {
 		st.havocLog()
+		st.havocHeap("NC")
 	}
 	if ms.allocs || ms.all {
 		st.havocAlloc()
@@ -708,6 +712,26 @@ func (fx *Fx) applyCall(st *State, fn *types.Func, recv *Val, args []Val, call *
 	if sp.Flags["lockeffect"] != "" {
 		st.havocHeap("LK") // the callee changes lock state; its ensures say how
 	}
+	// results
+	var out []Val
+	pure := sp.Flags["pure"] != ""
+	for i := 0; i < sig.Results().Len(); i++ {
+		rt := sig.Results().At(i).Type()
+		var v Val
+		if pure && sp.Flags["heapdep"] == "" {
+			v = fx.pureApp(st, key, i, recv, args, rt)
+		} else {
+			v = fx.freshOfType(st, "res", rt)
+		}
+		out = append(out, v)
+		if rn := sig.Results().At(i).Name(); rn != "" && rn != "_" {
+			bound[rn] = v
+		}
+		bound[fmt.Sprintf("result%d", i)] = v
+	}
+	if len(out) > 0 {
+		bound["result"] = out[0]
+	}
 	// object-granular frames: heaps named as x.f change only at the object x
 	type objFrame struct{ key, old string }
 	var objFrames []objFrame
@@ -757,26 +781,6 @@ func (fx *Fx) applyCall(st *State, fn *types.Func, recv *Val, args []Val, call *
 		fx.havocMods(st, ms)
 	}
 	applyObjFrames()
-	// results
-	var out []Val
-	pure := sp.Flags["pure"] != ""
-	for i := 0; i < sig.Results().Len(); i++ {
-		rt := sig.Results().At(i).Type()
-		var v Val
-		if pure && sp.Flags["heapdep"] == "" {
-			v = fx.pureApp(st, key, i, recv, args, rt)
-		} else {
-			v = fx.freshOfType(st, "res", rt)
-		}
-		out = append(out, v)
-		if rn := sig.Results().At(i).Name(); rn != "" && rn != "_" {
-			bound[rn] = v
-		}
-		bound[fmt.Sprintf("result%d", i)] = v
-	}
-	if len(out) > 0 {
-		bound["result"] = out[0]
-	}
 	for _, e := range sp.Ensures {
 		env := &SpecEnv{fx: fx, st: st, old: pre, bound: bound, pos: specPos, pkg: calleePkg}
 		st.assume(fx.specBool(env, e.Expr))
@@ -827,24 +831,6 @@ func (fx *Fx) defaultCall(st *State, fn *types.Func, key string, recv *Val, args
 	// interface method without contract: union of the implementations' frames (mods.go)
 	ms := newModSet()
 	fx.w.callMods(fx.pkg, c, call, ms, nil)
-	if _, inRepo := fx.w.Funcs[key]; inRepo {
-		nilI := "(mkIface 0 0)"
-		a0, a1 := nilI, nilI
-		if recv != nil {
-			a0 = c.box(*recv)
-			if len(args) > 0 {
-				a1 = c.box(args[0])
-			}
-		} else {
-			if len(args) > 0 {
-				a0 = c.box(args[0])
-			}
-			if len(args) > 1 {
-				a1 = c.box(args[1])
-			}
-		}
-		st.logEvent(evTerm("Call", fmt.Sprint(c.codeId(key)), a0, a1, ""))
-	}
 	fx.havocMods(st, ms)
 	for i := 0; i < sig.Results().Len(); i++ {
 		out = append(out, fx.freshOfType(st, "res", sig.Results().At(i).Type()))
